@@ -23,6 +23,7 @@ From Galaxy.Model Require Import Nets Pool Ipam Plugin PluginInfo.
 From Galaxy.Model Require Keys.
 From Galaxy.Proofs Require Import IpamP PluginInv PluginStickyP.
 From Galaxy.Proofs Require PluginPoolP.
+From Galaxy.Proofs Require Import PluginReplicasP.
 Local Open Scope N_scope.
 
 (** a pod (any policy, no requested ranges) whose key holds IPs is offered exactly the nodes from which the IP the
@@ -156,3 +157,75 @@ Example dp_takes_reserve_nonvacuous :
   (filter_section w p ex_allnodes (o_choice_is x) no_faults).2 = FNodes [L "node1"] ∧
   (∃ ey', i_alloc (w_ipam (filter_section w p ex_allnodes (o_choice_is x) no_faults).1) !! x = Some ey' ∧ e_key ey' = pod_key p).
 Proof. exact ex_dp_reserve_l. Qed.
+
+(** * replacement pods of a deployment / pool with policy immutable or never (Proofs/PluginReplicasP.v)
+
+    [dp_used w k] = the number of IPs the app (the named pool) of key [k] USES, as Filter counts it: exactly the [used]
+    expression of [filter_section] - the entries under the pool prefix other than the reserve itself (the bare prefix
+    key), for a named pool without a Pool object only those of the same deployment.  [(dp_replicas w k).1] = the
+    replicas of the deployment, or the size of the Pool object.
+
+    While the app already uses as many IPs as it has replicas, a replacement pod (no IP under its own key yet) is
+    offered NO node and Filter changes nothing: the pod waits for the IP of the pod it replaces.  No further premise
+    was needed: [ko_is_dp (keyobj_of p)] follows from [pd_kind p = KDp] without [wf_pod p], and an unsupported policy
+    is an error all the same. *)
+Theorem dp_waits_for_its_ip : ∀ w p nodes o fl w' r,
+  pd_kind p = KDp → policy_of p ≠ 0 → pd_ranges p = [] →
+  (∀ y ey, i_alloc (w_ipam w) !! y = Some ey → e_key ey ≠ pod_key p) →
+  ((dp_replicas w (keyobj_of p)).1 <= N.of_nat (dp_used w (keyobj_of p)))%N →
+  filter_section w p nodes o fl = (w', r) → w' = w ∧ ∀ l, r ≠ FNodes l.
+Proof. exact dp_waits_for_its_ip_l. Qed.
+Print Assumptions dp_waits_for_its_ip.
+
+(** conversely: whenever Filter offers nodes to such a pod, the app uses fewer IPs than it has replicas *)
+Theorem dp_offered_only_below_replicas : ∀ w p nodes o fl w' l,
+  pd_kind p = KDp → policy_of p ≠ 0 → pd_ranges p = [] →
+  (∀ y ey, i_alloc (w_ipam w) !! y = Some ey → e_key ey ≠ pod_key p) →
+  filter_section w p nodes o fl = (w', FNodes l) →
+  (N.of_nat (dp_used w (keyobj_of p)) < (dp_replicas w (keyobj_of p)).1)%N.
+Proof. exact dp_offered_only_below_replicas_l. Qed.
+Print Assumptions dp_offered_only_below_replicas.
+
+(** Filter, then Bind: the pod is bound with an IP that WAITED in the app's reserve - never a fresh one while a
+    reserved one waits ([dp_takes_reserve]: the only entry keyed by the pod in [w1] is the re-keyed reserve IP;
+    [sticky_bind]: Bind writes exactly one IP the key already holds) *)
+Theorem dp_filter_then_bind_uses_reserve : ∀ w p nodes o fl w1 l ns name uid node o2 fl2 w2 ips,
+  WInv w → pools_routable (w_ipam w) → pd_kind p = KDp → policy_of p ≠ 0 → pd_ranges p = [] →
+  (∀ y ey, i_alloc (w_ipam w) !! y = Some ey → e_key ey ≠ pod_key p) →
+  (∃ y ey, i_alloc (w_ipam w) !! y = Some ey ∧ e_key ey = Keys.pool_prefix (keyobj_of p)) →
+  filter_section w p nodes o fl = (w1, FNodes l) →
+  w_lister w1 !! (ns, name) = Some p →
+  bind_section true true w1 ns name uid node o2 fl2 = (w2, BOk ips) →
+  ∃ y ey, ips = [y] ∧ i_alloc (w_ipam w) !! y = Some ey ∧ e_key ey = Keys.pool_prefix (keyobj_of p).
+Proof. exact dp_filter_then_bind_uses_reserve_l. Qed.
+Print Assumptions dp_filter_then_bind_uses_reserve.
+
+(** the hypotheses are satisfiable.
+    (4) deployment ns1/dp, policy immutable, ONE replica ([ex_dp_full_world]): the app uses 10.100.0.3 (held by the
+        running pod dp-abc-old) and holds 10.100.0.4 in reserve; the replacement pod dp-abc-xyz is offered no node
+        (Filter answers with an error) although a reserved IP waits *)
+Example dp_waits_nonvacuous :
+  let w := ex_dp_full_world in let p := ex_dp_pod in
+  WInv w ∧ pools_routable (w_ipam w) ∧ pd_kind p = KDp ∧ policy_of p ≠ 0 ∧ pd_ranges p = [] ∧
+  (∀ y ey, i_alloc (w_ipam w) !! y = Some ey → e_key ey ≠ pod_key p) ∧
+  (∃ ey, i_alloc (w_ipam w) !! ip4 10 100 0 4 = Some ey ∧ e_key ey = Keys.pool_prefix (keyobj_of p)) ∧
+  dp_replicas w (keyobj_of p) = (1, false) ∧ dp_used w (keyobj_of p) = 1%nat ∧
+  ((dp_replicas w (keyobj_of p)).1 <= N.of_nat (dp_used w (keyobj_of p)))%N ∧
+  (filter_section w p ex_allnodes (o_choice_is (ip4 10 100 0 4)) no_faults).2 = FErr.
+Proof. exact ex_dp_waits_l. Qed.
+Print Assumptions dp_waits_nonvacuous.
+
+(** (5) the world of (3): 2 replicas, the app uses no IP and holds 10.100.0.4 in reserve.  Filter offers node1
+        (0 < 2) and re-keys 10.100.0.4 to the pod; Bind on node1 writes exactly that IP *)
+Example dp_filter_then_bind_nonvacuous :
+  let w := ex_dp_world in let p := ex_dp_pod in let x := ip4 10 100 0 4 in
+  let w1 := (filter_section w p ex_allnodes (o_choice_is x) no_faults).1 in
+  WInv w ∧ pools_routable (w_ipam w) ∧ pd_kind p = KDp ∧ policy_of p ≠ 0 ∧ pd_ranges p = [] ∧
+  (∀ y ey, i_alloc (w_ipam w) !! y = Some ey → e_key ey ≠ pod_key p) ∧
+  (∃ ey, i_alloc (w_ipam w) !! x = Some ey ∧ e_key ey = Keys.pool_prefix (keyobj_of p)) ∧
+  dp_used w (keyobj_of p) = 0%nat ∧ (dp_replicas w (keyobj_of p)).1 = 2 ∧
+  (filter_section w p ex_allnodes (o_choice_is x) no_faults).2 = FNodes [L "node1"] ∧
+  w_lister w1 !! (L "ns1", L "dp-abc-xyz") = Some p ∧
+  (bind_section true true w1 (L "ns1") (L "dp-abc-xyz") (L "u5") (L "node1") (o_first_is x) no_faults).2 = BOk [x].
+Proof. exact ex_dp_filter_bind_l. Qed.
+Print Assumptions dp_filter_then_bind_nonvacuous.
